@@ -1,0 +1,42 @@
+//go:build verif
+
+// Contracts for the deductive verification of this package (build tag "verif"). This file contains
+// comments only; it adds no code. The contract language and the generator that checks these contracts
+// against the code of this package live outside the repository.
+
+package headers
+
+//@ pure func last(b *Branch) *HeaderData = b.headers[len(b.headers)-1]
+//@ pure func W(d *HeaderData) int = bigv(d.AccumulatedWork)
+
+// tipOK: the branch has a last header whose accumulated work exists.
+//@ pure func tipOK(b *Branch) bool = b != nil && len(b.headers) > 0 && last(b) != nil && last(b).AccumulatedWork != nil
+
+//@ func (Branches).Longest
+//@   requires forall(i, 0, len(bs), tipOK(bs[i]))
+//@   ensures [C01.member] len(bs) > 0 ==> exists(k, 0, len(bs), result == bs[k])
+//@   ensures [C01.maximal] forall(i, 0, len(bs), W(last(result)) >= W(last(bs[i])))
+//@   ensures [C01] len(bs) == 0 ==> result == nil
+//@   modifies nothing
+//@   loop 1
+//@     invariant -1 <= rangeindex && rangeindex < len(bs) || (len(bs) == 0 && rangeindex == -1)
+//@     invariant (rangeindex == -1) == (result == nil)
+//@     invariant result != nil ==> exists(k, 0, rangeindex+1, result == bs[k])
+//@     invariant result != nil ==> resultLast == last(result)
+//@     invariant forall(i, 0, rangeindex+1, W(resultLast) >= W(last(bs[i])))
+
+// removeDuplicateHashes: drops every element equal to its predecessor (C19: no hash twice in a locator whose
+// equal hashes are adjacent).
+//@ func removeDuplicateHashes
+//@   ensures [C19.no-adjacent-duplicates] forall(i, 1, len(result), result[i] != result[i-1])
+//@   ensures [C19.first-kept] len(hashes) > 0 ==> len(result) > 0 && result[0] == hashes[0]
+//@   ensures [C19.no-longer] len(result) <= len(hashes)
+//@   modifies nothing
+//@   loop 1
+//@     modifies elems(result)
+//@     invariant (-1 <= rangeindex && rangeindex < len(hashes)) || (len(hashes) == 0 && rangeindex == -1)
+//@     invariant sameregion(result)
+//@     invariant len(result) <= rangeindex+1 && (rangeindex >= 0 ==> len(result) >= 1)
+//@     invariant rangeindex >= 0 ==> previousHash == hashes[rangeindex] && result[len(result)-1] == hashes[rangeindex]
+//@     invariant rangeindex >= 0 ==> result[0] == hashes[0]
+//@     invariant forall(i, 1, len(result), result[i] != result[i-1])
